@@ -36,13 +36,19 @@ OPEN_STATEMENTS = [
     'equivalence of the Z-sectors of the fixed qubits): checked numerically (eigvalsh, 1e-9) on every generated case; '
     'proved: the qubit re-indexing is the order-preserving bijection with "remove" exactly at the removed positions '
     '(taper_reindex_spec) and the Pauli-table invariant of the fixed position (fixed_position_invariant)',
-    'fix_single_term_equiv / reduce_terms_agrees_on_codespace (multiplying by a stabilizer is the identity on its +1 '
-    'eigenspace; iteration over the updated stabilizer list; existence of fixed positions): exact Spec oracle only',
+    'reduce_terms_agrees_on_codespace is proved for the loop of _reduce_terms run without pruning (tol = 0: '
+    'reduce_terms_agrees_on_codespace_partial, any stabilizer list, manual or automatic positions); missing for the live '
+    'tolerance 1e-8: that no partial sum of `new_terms +=` is non-zero but below the tolerance along the run; the checks of '
+    'reduce_number_of_terms, the existence of fixed positions and taper_off_qubits on top of it: Spec oracle',
     '_reduce_terms_keep_length / _lookup_term: correspondence + Spec oracle only',
-    'project_onto_sector_sound for whole terms / operators: proved are the factor-level sector semantics '
-    '(sector_factor_spec) and the order-preserving re-indexing (project_reindex_order_preserving); the operator-level '
-    'statement is checked by the exact embedded-matrix-element oracle',
-    'rotate_qubit_by_pauli_sound: no theorem; Spec oracle (dense matrices of (c - i s P) Q (c + i s P), 1e-9)',
+    'project_onto_sector_sound: proved term by term without tolerance (project_term_kept / project_term_dropped) and for '
+    'whole operators when the loop runs without pruning (project_onto_sector_sound_partial, tol = 0), relative to any '
+    'embedding E satisfying `Emb` (kept qubit q at bit shiftDown(q), removed qubits at their sector value); missing: that '
+    'Spec.C16.embed (the embedding the oracle uses) satisfies `Emb` for every qubit list, and the live tolerance 1e-8; '
+    'both covered by the exact embedded-matrix-element oracle',
+    'rotate_qubit_by_pauli_sound is proved for exact (c, s) with c^2 + s^2 = 1 in the exact regime of the four sums '
+    '(ExactAdd); not proved: that numpy.cos / numpy.sin deliver such a pair (floats: Spec oracle at 1e-9) and the case '
+    'where a partial sum is pruned by the 1e-8 tolerance',
     'freeze_orbitals_sound on Fock space (sum over terms, several frozen orbitals, occupied-orbital sign): proved is the '
     'scan of a single term (deleted operators, swap count = true transpositions - n_ops, occupancy parity, hence correct '
     'sign on surviving terms); the full statement is checked by the exact embedded-matrix-element oracle',
